@@ -48,5 +48,33 @@ def main():
           "P = statement-level predicate failed on the real code (that input is the replay); ° = reported as no-failing-input-found.")
 
 
+def refactorings():
+    print("| behaviour-preserving refactoring | property | what it changes | check of that property | what stopped checking |")
+    print("|---|---|---|---|---|")
+    n = al = 0
+    for d in sorted(glob.glob(os.path.join(VERIF, "refactorings", "*"))):
+        mp, rp = os.path.join(d, "meta.json"), os.path.join(d, "result.json")
+        if not (os.path.exists(mp) and os.path.exists(rp)):
+            continue
+        m, r = json.load(open(mp)), json.load(open(rp))
+        x = r.get("checks", {}).get(m.get("property"), {})
+        n += 1
+        alarm = x.get("exit") == 1
+        al += alarm
+        br = x.get("broken", {})
+        what = "; ".join(f"{k}: {(v[0] if v else '')[:110]}" for k, v in br.items()).replace("|", "/")
+        summ = m.get("summary", "").replace("|", "/").replace("\n", " ")
+        if len(summ) > 260:
+            summ = summ[:257] + "…"
+        print(f"| `{os.path.basename(d)}` | {m.get('property')} | {summ} | {'VIOLATION … no-failing-input-found' if alarm else 'OK'} | {what} |")
+    print()
+    print(f"{al} of {n} behaviour-preserving refactorings are reported (as the brief prescribes when a proof obligation breaks and no failing input exists) "
+          f"as `no-failing-input-found`; {n - al} pass.")
+
+
 if __name__ == "__main__":
-    main()
+    import sys
+    if "--refactorings" in sys.argv:
+        refactorings()
+    else:
+        main()
